@@ -51,6 +51,10 @@ fn nodes_all_sigs(nodes: &[Node]) -> Result<Signature, SigCheckError> {
     thread_local! {
         static CACHE: RefCell<AllSigsCache> = RefCell::new(AllSigsCache::new());
     }
+    #[cfg(feature = "verif_hooks")]
+    if crate::verif::c12::bypassed(crate::verif::c12::SIG) {
+        CACHE.with(|cache| cache.borrow_mut().clear());
+    }
     let mut hasher = RapidHasher::new(1);
     nodes.hash(&mut hasher);
     let hash = hasher.finish();
